@@ -3,9 +3,10 @@ import random
 from canon import *
 
 GRID = [0, 6, 12, 18, 24, 36, 48, 60, 72, 84, 96, 108, 120, 144, 192]
-PITCHES = [60, 61, 62, 60, 61, 62, 20, 21, 108, 109, 64]
+PITCHES = [60, 61, 62, 60, 61, 62, 20, 21, 108, 109, 64, 0, 127]     # incl. both ends of the MIDI pitch range
 CHANS = [0, 0, 0, 1, 1, 2]
 VELS = [1, 127, 100, 64, 24, 40, 41, 39, 90]
+EDGE_PITCHES = [0, 127, 0, 127, 1, 126]
 KEYS = ["C", "G", "D", "A", "E", "B", "F_S", "C_S", "F", "B_B", "E_B", "A_B", "D_B", "G_B", "C_B"]
 SIGS = [(4, 4), (3, 4), (2, 4), (6, 8), (5, 8), (2, 2), (12, 8), (3, 16), (4, 4), (3, 4), (1, 4), (7, 8), (9, 16),
         (4, 8), (4, 2), (2, 8), (8, 8), (8, 4), (3, 32), (5, 32), (2, 64), (6, 64), (7, 16), (5, 16)]   # same numerators with different denominators; denominators that do not divide 96
@@ -112,7 +113,7 @@ def gen_rel_malformed(rng, n=None, floats=False):
         r = rng.random()
         c = rng.choice(chans)
         if r < 0.3:
-            out.append(ON(c, rng.choice(pitches), rng.choice([100, 64])))
+            out.append(ON(c, rng.choice(pitches), rng.choice([100, 64, 100, 64, 0])))     # velocity 0 is a legal NOTE_ON here
         elif r < 0.6:
             out.append(OFF(c, rng.choice(pitches)))
         elif r < 0.82:
